@@ -107,7 +107,30 @@ def generate(tier, seed, work, stats):
             cases.append(dict(kind="fcfg", family="random-annotated", nested=bool(rnd.random() < 0.5),
                               prods=[[h, rnd.choice(["-", "-", "sg", "pl", "x"]), b,
                                       [rnd.choice(["-", "x", "x", "sg", "pl"]) if y[0].isupper() else "-" for y in b]] for h, b in prods]))
-    return cases
+    # the same grammars read from their text form (one production per line / alternatives merged with "|"), grammars in
+    # which one head and body occurs with different features (lexical ambiguity), and the variable name the parser
+    # uses for its own start item
+    extra = []
+    k = 0
+    for c in cases:
+        if c.get("kind") != "fcfg" or c.get("nested"):
+            continue
+        k += 1
+        if k % 5 == 0 and all(h[0].isupper() for h, _, _, _ in c["prods"]):
+            extra.append(dict(c, builder=("text", "text-alt")[k // 5 % 2], family=c["family"] + "+from_text"))
+        if k % 7 == 0:
+            lex = [p for p in c["prods"] if p[2] and all(not x[0].isupper() for x in p[2])]
+            if lex:
+                h, ha, body, banns = lex[0]
+                twin = [h, "pl" if ha != "pl" else "sg", body, banns]
+                if twin not in c["prods"]:
+                    extra.append(dict(c, prods=c["prods"] + [twin], free=False, family=c["family"] + "+same-body-other-feature",
+                                      builder=("ctor", "text")[k // 7 % 2]))
+        if k % 9 == 0:
+            ren = lambda x: "Gamma" if x == "A" else x
+            extra.append(dict(c, prods=[[ren(h), ha, [ren(x) for x in b], ba] for h, ha, b, ba in c["prods"]], gamma=True,
+                              family=c["family"] + "+variable-named-Gamma"))
+    return cases + extra
 
 
 # ---------------------------------------------------------------- feature structures
@@ -184,7 +207,32 @@ def do_unify(x, y):
 
 
 # ---------------------------------------------------------------- feature grammars
-def build_fcfg(prods, nested=False):
+def fcfg_text(prods, alternatives):
+    """The grammar in the text syntax of FCFG.from_text (feature N; "x" is the variable ?x); alternatives=True merges the
+    productions of one annotated head into `head -> body1 | body2`."""
+    def sym(x, a):
+        if not x[0].isupper():
+            return x
+        return x if a == "-" else (x + "[N=?x]" if a == "x" else x + "[N=%s]" % a)
+    lines, order = {}, []
+    for h, ha, body, banns in prods:
+        b = " ".join(sym(x, a) for x, a in zip(body, banns)) or "$"
+        key = (h, ha) if alternatives else len(order)
+        if key not in lines:
+            lines[key] = [sym(h, ha), []]
+            order.append(key)
+        lines[key][1].append(b)
+    return "\n".join("%s -> %s" % (lines[k][0], " | ".join(lines[k][1])) for k in order)
+
+
+def build_fcfg(prods, nested=False, builder="ctor"):
+    if builder != "ctor":
+        from pyformlang.fcfg import FCFG
+        return FCFG.from_text(fcfg_text(prods, builder == "text-alt"))
+    return _build_fcfg(prods, nested)
+
+
+def _build_fcfg(prods, nested=False):
     """nested=True writes the value v of feature n as the structure [m = v] (as in AGREEMENT=[NUMBER=sg]): the same
     abstract grammar, another shape of feature structure."""
     from pyformlang.cfg import Variable, Terminal
@@ -232,11 +280,11 @@ def replay(case):
         words.extend(itertools.product(["a", "b"], repeat=n))
     # input tokens spelled like the variables of the grammar are ordinary (unknown) tokens
     words += [("A",), ("S",), ("a", "A"), ("A", "b"), ("B", "a"), ("a", "B", "b")]
-    ev = {"op": "fcfg_contains", "prods": prods, "vars": ["S", "A", "B", "X", "Y"], "terms": ["a", "b"], "start": "S",
+    ev = {"op": "fcfg_contains", "prods": prods, "vars": ["S", "A", "B", "X", "Y", "Gamma"], "terms": ["a", "b"], "start": "S",
           "dom": ["sg", "pl"], "L": 3, "words": [list(w) for w in words], "acc": [], "free": bool(case.get("free"))}
     acc = []
     for w in words:
-        fg = build_fcfg(prods, nested=bool(case.get("nested")))
+        fg = build_fcfg(prods, nested=bool(case.get("nested")), builder=case.get("builder", "ctor"))
         r = guard.call(fg.contains, list(w), timeout=3.0)
         if r[0] != "ok":
             ev["exc"] = (r[1] if r[0] == "exc" else "Timeout") + " on " + "".join(w)
